@@ -90,8 +90,9 @@ type concEnv struct {
 }
 
 type concView struct {
-	env *concEnv
-	own []string
+	env   *concEnv
+	own   []string
+	store queue.Store // this caller's own handle on the database (nil: the shared one)
 }
 
 func (v *concView) leaseID(ref int) string {
@@ -142,6 +143,9 @@ func concErr(err error) string {
 // leases it grants become visible to every task.
 func (v *concView) exec(s Step, prefix bool) string {
 	st := v.env.store
+	if v.store != nil {
+		st = v.store
+	}
 	switch s.Op {
 	case "advance":
 		v.env.clock.Advance(s.D)
@@ -364,6 +368,16 @@ func concReference(p *Program, prefix []Step, order []*concRec, ntasks int) conc
 	views := make([]*concView, ntasks)
 	for i := range views {
 		views[i] = &concView{env: env}
+	}
+	if blk := p.Steps[len(p.Steps)-1]; blk.Handles == 2 && cfg.Backend == "sqlite" {
+		for i := 1; i < ntasks; i++ {
+			h, closeH, err := openStore(cfg, clock, filepath.Join(dir, "q.db"))
+			if err != nil {
+				return concRefResult{trouble: "reference store, second handle: " + err.Error()}
+			}
+			defer closeH()
+			views[i].store = h
+		}
 	}
 	var r concRefResult
 	for _, o := range order {
@@ -600,11 +614,22 @@ func runConcOnce(p *Program, prefix []Step, block Step, cache map[string]concRef
 	sched := NewSched()
 	sched.DetectBlocked = true
 	sched.Watchdog = 120 * time.Second
+	twoHandles := block.Handles == 2 && !memory
 	sched.SetArmed(func(label string) bool {
 		if memory {
 			return strings.HasPrefix(label, "queue.MemoryStore.")
 		}
-		return strings.HasPrefix(label, "queue.SQLiteStore.")
+		if !strings.HasPrefix(label, "queue.SQLiteStore.") {
+			return false
+		}
+		// "#d" points sit where the caller may hold its pooled connection: they
+		// are of use only when the other caller has a connection of its own
+		if strings.Contains(label, "#d") && !twoHandles {
+			return false
+		}
+		// never park a caller inside a write transaction: the other connection
+		// would wait for the lock on real time (busy handler)
+		return !disk.WriteLocked()
 	})
 	sched.Install()
 	defer UninstallSched()
@@ -655,9 +680,31 @@ func runConcOnce(p *Program, prefix []Step, block Step, cache map[string]concRef
 	}
 	var recs []*concRec
 	var recMu sync.Mutex
+	extra := map[int]queue.Store{}
+	if block.Handles == 2 && !memory {
+		for ti := 1; ti < len(block.Tasks); ti++ {
+			h, closeH, err := openStore(cfg, clock, filepath.Join(dir, "q.db"))
+			if err != nil {
+				res.Trouble = "second handle: " + err.Error()
+				return res, nil
+			}
+			closeHandle := closeH
+			defer func() {
+				disk.Kill()
+				done := make(chan struct{})
+				go func() { _ = closeHandle(); close(done) }()
+				select {
+				case <-done:
+				case <-time.After(5 * time.Second):
+				}
+			}()
+			extra[ti] = h
+		}
+		res.probe("conc.two_handles")
+	}
 	for ti := range block.Tasks {
 		ti := ti
-		view := &concView{env: env}
+		view := &concView{env: env, store: extra[ti]}
 		tasks[ti] = sched.Go(fmt.Sprintf("t%d", ti), "conc", func() any {
 			for oi, s := range block.Tasks[ti] {
 				sched.Park("op")
@@ -897,10 +944,11 @@ func compressTrace(tr []string) string {
 // ---- generator ----
 
 type ConcProfile struct {
-	Memory int // memory backend probability in tenths (no crashes there)
-	Crash  int // crash probability in tenths
-	Limits int // small max_depth (reject / drop_oldest) probability in tenths
-	Sweep  int // programs whose block is swept over all single-preemption schedules, per mille
+	Memory     int // memory backend probability in tenths (no crashes there)
+	TwoHandles int // SQLite: each caller on its own handle of the one file, probability in tenths
+	Crash      int // crash probability in tenths
+	Limits     int // small max_depth (reject / drop_oldest) probability in tenths
+	Sweep      int // programs whose block is swept over all single-preemption schedules, per mille
 }
 
 func GenConcProgram(t *rapid.T, prof ConcProfile) *Program {
@@ -1086,6 +1134,9 @@ func GenConcProgram(t *rapid.T, prof ConcProfile) *Program {
 		}
 		block.Image = rapid.SampledFrom([]string{"kill", "kill", "powerloss"}).Draw(t, "crash.image")
 		block.ImgSeed = int64(rapid.IntRange(0, 1<<20).Draw(t, "crash.seed"))
+	}
+	if prof.TwoHandles > 0 && p.Store.Backend != "memory" && rapid.IntRange(0, 9).Draw(t, "handles?") < prof.TwoHandles {
+		block.Handles = 2
 	}
 	p.Steps = append(p.Steps, block)
 	return p
